@@ -284,7 +284,12 @@ class C20S(Monitor):
     def on_crash(self, w, op, crash):
         if op[0] in ("put", "get") and crash.where == op[0]:
             return []  # judged by C01 / C02
-        return [V("C20", "no-crash", w, "%s" % crash, op=op[0], where=crash.where, exc=type(crash.exc).__name__)]
+        from .engine_f import crash_site
+        if crash.where == "livelock":
+            return [V("C20", "no-livelock", w, "%s" % crash, op=op[0], where="livelock")]
+        site, msg = crash_site(crash.exc)
+        return [V("C20", "no-crash", w, "%s" % crash, where=crash.where if crash.where == "env.step" else "call", exc=type(crash.exc).__name__,
+                  site=site)]
 
 
 MONITORS = {"C01": [C01], "C02": [Avail, C02], "C04": [Avail, C04], "C05": [C05], "C06": [Avail, C06],
